@@ -2037,6 +2037,15 @@ static int host_is_big_endian() {
 
             *section) set to the logical bitstream number */
 
+/* the float->int primitives in os.h answer INT_MIN for anything outside
+   the int range (positive values included), which the clipping below
+   would turn into the most negative sample; saturate first */
+static int _ov_ftoi(double f){
+  if(f>2147483520.)return(2147483647);
+  if(f<-2147483520.)return(-2147483647-1);
+  return(vorbis_ftoi(f));
+}
+
 long ov_read_filter(OggVorbis_File *vf,char *buffer,int length,
                     int bigendianp,int word,int sgned,int *bitstream,
                     void (*filter)(float **pcm,long channels,long samples,void *filter_param),void *filter_param){
@@ -2093,7 +2102,7 @@ long ov_read_filter(OggVorbis_File *vf,char *buffer,int length,
         vorbis_fpu_setround(&fpu);
         for(j=0;j<samples;j++)
           for(i=0;i<channels;i++){
-            val=vorbis_ftoi(pcm[i][j]*128.f);
+            val=_ov_ftoi(pcm[i][j]*128.f);
             if(val>127)val=127;
             else if(val<-128)val=-128;
             *buffer++=val+off;
@@ -2110,7 +2119,7 @@ long ov_read_filter(OggVorbis_File *vf,char *buffer,int length,
               float *src=pcm[i];
               short *dest=((short *)buffer)+i;
               for(j=0;j<samples;j++) {
-                val=vorbis_ftoi(src[j]*32768.f);
+                val=_ov_ftoi(src[j]*32768.f);
                 if(val>32767)val=32767;
                 else if(val<-32768)val=-32768;
                 *dest=val;
@@ -2126,7 +2135,7 @@ long ov_read_filter(OggVorbis_File *vf,char *buffer,int length,
               float *src=pcm[i];
               short *dest=((short *)buffer)+i;
               for(j=0;j<samples;j++) {
-                val=vorbis_ftoi(src[j]*32768.f);
+                val=_ov_ftoi(src[j]*32768.f);
                 if(val>32767)val=32767;
                 else if(val<-32768)val=-32768;
                 *dest=val+off;
@@ -2141,7 +2150,7 @@ long ov_read_filter(OggVorbis_File *vf,char *buffer,int length,
           vorbis_fpu_setround(&fpu);
           for(j=0;j<samples;j++)
             for(i=0;i<channels;i++){
-              val=vorbis_ftoi(pcm[i][j]*32768.f);
+              val=_ov_ftoi(pcm[i][j]*32768.f);
               if(val>32767)val=32767;
               else if(val<-32768)val=-32768;
               val+=off;
@@ -2155,7 +2164,7 @@ long ov_read_filter(OggVorbis_File *vf,char *buffer,int length,
           vorbis_fpu_setround(&fpu);
           for(j=0;j<samples;j++)
             for(i=0;i<channels;i++){
-              val=vorbis_ftoi(pcm[i][j]*32768.f);
+              val=_ov_ftoi(pcm[i][j]*32768.f);
               if(val>32767)val=32767;
               else if(val<-32768)val=-32768;
               val+=off;
